@@ -262,6 +262,10 @@ func rulesC13(w *World, r *Report) {
 	}
 	// a false hit in the ref table answers a value with a back-reference: its content —
 	// and an unrepresentable member in it — is never visited
+	{
+		reach := w.reachPkg(w.encoderRoots()...)
+		w.ruleLoopsProgress(r, "C13.R7 every loop on the encode path makes progress", 6, func(fn *ssa.Function) bool { return reach[fn] || reach[rootFn(fn)] })
+	}
 	w.ruleRefKeyIdentity(r, "C13.R6 only the same container is answered with a back-reference")
 	roots := w.encoderRoots()
 	reach := w.reachPkg(roots...)
